@@ -5,7 +5,7 @@
 From Coq Require Import Arith List Reals QArith Qcanon.
 From Coquelicot Require Import Coquelicot.
 From GPV Require Import Base.LinAlg Base.Exec Base.Expr Models.C05_kernels Proofs.C05_kernels
-  Proofs.C05_hessian Proofs.C05_den Proofs.C05_newton.
+  Proofs.C05_hessian Proofs.C05_den Proofs.C05_newton Proofs.C05_arc.
 
 (* the quadratic-expansion distance of the code (center by the column means of x1, then
    |x|^2 + |y|^2 - 2 x.y) is sum_k (x_k - y_k)^2: every field, every d, n1, n2 *)
@@ -271,6 +271,41 @@ Theorem c05_operator_leaves :
 Proof. exact oleaves_ops. Qed.
 Print Assumptions c05_operator_leaves.
 
+(* ArcKernel with the constructor option delta_func (act m = value of delta_m at the point, 1 = active,
+   0 = inactive), every d, every coordinate: an inactive coordinate embeds as the documented [0, 0], an
+   active one as omega [sin(pi rho x / l), cos(pi rho x / l)] *)
+Theorem c05_arc_embedding_inactive :
+  forall d (rad ang l act x : nat -> R) m, (m < d)%nat -> act m = 0%R ->
+    @arc_embed TR d rad ang l act x m = 0%R /\ @arc_embed TR d rad ang l act x (d + m) = 0%R.
+Proof. exact arc_inactive. Qed.
+Print Assumptions c05_arc_embedding_inactive.
+Theorem c05_arc_embedding_active :
+  forall d (rad ang l act x : nat -> R) m, (m < d)%nat -> act m = 1%R ->
+    @arc_embed TR d rad ang l act x m = (rad m * sin (PI * ang m * (x m / l m)))%R /\
+    @arc_embed TR d rad ang l act x (d + m) = (rad m * cos (PI * ang m * (x m / l m)))%R.
+Proof. exact arc_active. Qed.
+Print Assumptions c05_arc_embedding_active.
+(* hence coordinate m contributes to the squared distance of two embedded points (what the base kernel
+   sees): omega^2 when it is active in exactly one of them (whatever its values), 0 when inactive in both,
+   the chord 2 omega^2 (1 - cos(pi rho (x - y) / l)) when active in both *)
+Theorem c05_arc_distance_mixed_activity :
+  forall d (rad ang l ax x ay y : nat -> R) m, (m < d)%nat ->
+    (ax m = 1%R /\ ay m = 0%R) \/ (ax m = 0%R /\ ay m = 1%R) ->
+    arc_contrib d rad ang l ax x ay y m = (rad m ^ 2)%R.
+Proof. exact arc_contrib_mixed_either. Qed.
+Print Assumptions c05_arc_distance_mixed_activity.
+Theorem c05_arc_distance_both_inactive :
+  forall d (rad ang l ax x ay y : nat -> R) m, (m < d)%nat -> ax m = 0%R -> ay m = 0%R ->
+    arc_contrib d rad ang l ax x ay y m = 0%R.
+Proof. exact arc_contrib_both_inactive. Qed.
+Print Assumptions c05_arc_distance_both_inactive.
+Theorem c05_arc_distance_both_active :
+  forall d (rad ang l ax x ay y : nat -> R) m, (m < d)%nat -> ax m = 1%R -> ay m = 1%R -> l m <> 0%R ->
+    arc_contrib d rad ang l ax x ay y m
+    = (2 * rad m ^ 2 * (1 - cos (PI * ang m * ((x m - y m) / l m))))%R.
+Proof. exact arc_contrib_both_active. Qed.
+Print Assumptions c05_arc_distance_both_active.
+
 (* non-vacuity: a concrete interleaved index with n1 = 2, n2 = 3, p = 3 *)
 Example ex_c05_layout :
   @interleaved TR 3 (fun i j a b => INR (1000 * i + 100 * j + 10 * a + b)) (1 * 3 + 2) (2 * 3 + 1)
@@ -292,3 +327,9 @@ Proof. exact ex_m52_coincident. Qed.
 Example ex_c05_newton_girard :
   @newton_girard TR 2 (1%R :: 2%R :: 3%R :: nil) = 11%R.
 Proof. exact ex_newton_girard_3. Qed.
+
+(* non-vacuity: d = 1, omega = 2, coordinate active in x and inactive in y: contribution 2^2 *)
+Example ex_c05_arc_mixed :
+  arc_contrib 1 (fun _ => 2%R) (fun _ => (1 / 2)%R) (fun _ => 1%R) (fun _ => 1%R) (fun _ => 3%R)
+              (fun _ => 0%R) (fun _ => 5%R) 0 = (2 ^ 2)%R.
+Proof. exact ex_arc_mixed. Qed.
